@@ -263,6 +263,10 @@ class Evaluator:
     def run(self, part: Part, case) -> (Result, List[Dict[str, Any]]):
         """Runs the oracle, updates stats, returns (result, unlisted discrepancies)."""
         try:
+            # every evaluation is a pure function of the case: code under test that (wrongly or
+            # rightly) draws from torch's global generator sees the same stream on every replay
+            import torch
+            torch.manual_seed(20260926)
             res = part.oracle(case)
         except HarnessError:
             raise
